@@ -492,8 +492,15 @@ static const char *h_cur_step = "";
 
 #define H_Q() h_ev ("q", 0, 0, 0, 0, 0)
 
+static jmp_buf h_err_jmp;
+static int h_err_expected; /* linkfail: the MIR error is part of the history, come back with longjmp */
+
 static void __attribute__ ((noreturn)) h_error (MIR_error_type_t et, const char *fmt, ...) {
   va_list ap;
+  if (h_err_expected) {
+    h_err_expected = 0;
+    longjmp (h_err_jmp, 1 + (int) et);
+  }
   va_start (ap, fmt);
   fprintf (stderr, "c17_harness: MIR error %d in step %s: ", (int) et, h_cur_step);
   vfprintf (stderr, fmt, ap);
@@ -533,6 +540,7 @@ static void *h_resolve (const char *name) {
   if (strcmp (name, "exit") == 0 || strcmp (name, "_exit") == 0 || strcmp (name, "_Exit") == 0) return h_exit;
   if (strcmp (name, "abort") == 0) return h_abort;
   if (strcmp (name, "_MIR_flush_code_cache") == 0) return _MIR_flush_code_cache;
+  if (strncmp (name, "nosuch", 6) == 0) return NULL; /* deliberately unresolvable (failed-link histories) */
   if ((s = dlsym (RTLD_DEFAULT, name)) != NULL) return s;
   if (h_libm != NULL && (s = dlsym (h_libm, name)) != NULL) return s;
   if (strcmp (name, "stat") == 0) return stat;
@@ -788,6 +796,36 @@ static void h_step_link (const char *iface, int level) {
     } else
       h_die (3, "unknown interface %s", iface);
   }
+  H_Q ();
+}
+
+/* MIR_link that is expected to raise a MIR error (undefined import/export/forward): the error function
+   returns here by longjmp, as an application's would, and the history goes on with the same context */
+static void h_step_linkfail (const char *iface, int level) {
+  int jr;
+  h_need_ctx ();
+  if (strcmp (iface, "interp") != 0) h_gen_start (level);
+  h_err_expected = 1;
+  if ((jr = setjmp (h_err_jmp)) == 0) {
+    MIR_link (h_ctx,
+              strcmp (iface, "interp") == 0 ? MIR_set_interp_interface
+              : strcmp (iface, "gen") == 0  ? MIR_set_gen_interface
+              : strcmp (iface, "lazy") == 0 ? MIR_set_lazy_gen_interface
+                                            : MIR_set_lazy_bb_gen_interface,
+              h_resolve);
+    h_err_expected = 0;
+    h_label ("linkfail: MIR_link raised no error");
+  } else {
+    h_label ("linkfail: MIR_link raised the expected error");
+  }
+  h_iface = strcmp (iface, "interp") == 0 ? 0 : strcmp (iface, "gen") == 0 ? 1 : strcmp (iface, "lazy") == 0 ? 2 : 3;
+  H_Q ();
+}
+
+static long h_ext_stub (long x) { return x + 1000; }
+static void h_step_extern (const char *name) {
+  h_need_ctx ();
+  MIR_load_external (h_ctx, name, (void *) h_ext_stub);
   H_Q ();
 }
 
@@ -1531,6 +1569,8 @@ int main (int argc, char **argv) {
     else if (strcmp (st, "edit") == 0) h_step_edit ();
     else if (strcmp (st, "load") == 0) h_step_load ();
     else if (strcmp (st, "link") == 0) h_step_link (a1, a2 ? atoi (a2) : 2);
+    else if (strcmp (st, "linkfail") == 0) h_step_linkfail (a1, a2 ? atoi (a2) : 0);
+    else if (strcmp (st, "extern") == 0) h_step_extern (a1);
     else if (strcmp (st, "genall") == 0) h_step_genall (a1 ? atoi (a1) : 2);
     else if (strcmp (st, "run") == 0) h_step_run (a1 ? a1 : "main", a2 ? atol (a2) : 10);
     else if (strcmp (st, "run2") == 0) {
